@@ -704,7 +704,17 @@ func (R *Run) compareLayout(rule, construct, pos string, alts [][]Seg, want []sp
 		}
 		flat = append(flat, ws{s, ""})
 	}
+	// every alternative the code can emit (one per combination of phi edges) that applies to this form must equal
+	// the protocol layout; at least one must apply
 	var firstWhy string
+	var okDesc string
+	nApplicable, nMatch := 0, 0
+	negOf := func(c string) string {
+		if strings.Contains(c, "==") {
+			return strings.Replace(c, "==", "!=", 1)
+		}
+		return strings.Replace(c, "!=", "==", 1)
+	}
 	for _, gotRaw := range alts {
 		var got []Seg
 		var conds []string
@@ -716,19 +726,17 @@ func (R *Run) compareLayout(rule, construct, pos string, alts [][]Seg, want []sp
 			}
 		}
 		if wantCond != "" {
-			okc := false
+			other := false
 			for _, c := range conds {
-				if c == wantCond {
-					okc = true
+				if c == negOf(wantCond) {
+					other = true
 				}
 			}
-			if !okc {
-				if firstWhy == "" && len(got) == len(flat) {
-					firstWhy = fmt.Sprintf("this form is emitted under condition %v, the protocol emits it when %s", conds, wantCond)
-				}
-				continue
+			if other {
+				continue // belongs to the other form
 			}
 		}
+		nApplicable++
 		if len(got) != len(flat) {
 			if firstWhy == "" {
 				firstWhy = fmt.Sprintf("code emits %d segments %v, protocol layout has %d", len(got), got, len(flat))
@@ -753,24 +761,33 @@ func (R *Run) compareLayout(rule, construct, pos string, alts [][]Seg, want []sp
 						continue
 					}
 				}
-				if w.Value == "len" && w.LenOf != "" {
-					// or a computed length may be a stored prefix field of the spec'd name
-				}
 				ok = false
 				if firstWhy == "" {
 					firstWhy = fmt.Sprintf("segment %d: %s", i+1, why)
+					if len(conds) > 0 {
+						firstWhy += fmt.Sprintf(" (on the path where %v)", conds)
+					}
 				}
 				break
 			}
 		}
 		if ok {
-			var desc []string
-			for _, g := range got {
-				desc = append(desc, g.String())
+			nMatch++
+			if okDesc == "" {
+				var desc []string
+				for _, g := range got {
+					desc = append(desc, g.String())
+				}
+				okDesc = strings.Join(desc, " ")
 			}
-			R.ok(rule, construct, pos, "layout = "+strings.Join(desc, " "))
-			return
 		}
+	}
+	if nApplicable > 0 && nMatch == nApplicable {
+		R.ok(rule, construct, pos, "layout = "+okDesc)
+		return
+	}
+	if nApplicable == 0 {
+		firstWhy = "no path of the encoder emits this form (expected under " + wantCond + ")"
 	}
 	R.bad(rule, construct, pos, "wire layout differs from the protocol's record layout: "+firstWhy)
 }
